@@ -129,6 +129,16 @@ func mutateMemo(template, path, mut string) (string, bool) {
 		if mut == "dupkey" {
 			return `{"orbiter":null,` + template[1:], true
 		}
+		switch mut {
+		case "trailgarbage":
+			return template + " garbage", true
+		case "trailobj":
+			return template + `{"forward":{"receiver":"x"}}`, true
+		case "trailbrace":
+			return template + "}", true
+		case "leadgarbage":
+			return "x" + template, true
+		}
 		return template, false
 	}
 	dec := json.NewDecoder(strings.NewReader(template))
